@@ -439,16 +439,33 @@ class NetworkService(ModelElement):
         link between them
         """
         assert(isinstance(ns, NetworkService))
-        # see if they peer
-        sp = self.topo.graph_model.get_nodes_on_shortest_path(node_a=self.node_id, node_z=ns.node_id)
+        # see if they peer: find the ServicePorts of the two services that face each other over a link
+        # (a shortest path between the services is not necessarily the peering - a service owned by
+        # a node can reach the other service equally fast through one of its connected ports)
+        gm = self.topo.graph_model
+
+        def service_ports_with_links(ns_id):
+            ret = dict()
+            for cp_id in gm.get_first_neighbor(node_id=ns_id, rel=ABCPropertyGraph.REL_CONNECTS,
+                                               node_label=ABCPropertyGraph.CLASS_ConnectionPoint):
+                _, cp_props = gm.get_node_properties(node_id=cp_id)
+                if cp_props.get(ABCPropertyGraph.PROP_TYPE) == str(InterfaceType.ServicePort):
+                    ret[cp_id] = set(gm.get_first_neighbor(node_id=cp_id, rel=ABCPropertyGraph.REL_CONNECTS,
+                                                           node_label=ABCPropertyGraph.CLASS_Link))
+            return ret
+
+        other_ports = service_ports_with_links(ns.node_id)
+        sp = [(own_id, other_id) for own_id, own_links in service_ports_with_links(self.node_id).items()
+              for other_id, other_links in other_ports.items() if own_links & other_links]
         if len(sp) == 0:
             raise TopologyException(f"Network services {self.name} and {ns.name} do not peer!")
+        own_port, other_port = sp[0]
         # remove ConnectionPoints and link between them
-        self.topo.graph_model.remove_cp_and_links(node_id=sp[1])
-        ns.topo.graph_model.remove_cp_and_links(node_id=sp[-2])
+        self.topo.graph_model.remove_cp_and_links(node_id=own_port)
+        ns.topo.graph_model.remove_cp_and_links(node_id=other_port)
         # update interface lists
-        self._interfaces = list(filter((lambda x: x.node_id != sp[1]), self._interfaces))
-        ns._interfaces = list(filter((lambda x: x.node_id != sp[-2]), ns._interfaces))
+        self._interfaces = list(filter((lambda x: x.node_id != own_port), self._interfaces))
+        ns._interfaces = list(filter((lambda x: x.node_id != other_port), ns._interfaces))
 
     def copy_to_peer_labels(self) -> None:
         """
